@@ -23,7 +23,8 @@ EXPLANATION = (
     "each of the three by-reference forms (the write-back after the call stores without a cast; shared "
     "with C12.R4).  (R12) every result of a float + - * / on two run-time operands and every narrowing of a double to a single is tested with is_finite before it becomes a value (Overflow instead of infinity); R7 also covers the functions of the value arithmetic that pick the narrowest type for a float result (no unguarded, saturating float-to-integer conversion).  (R13) a size or address narrowed to i32 in the VM's value code (LEN, VARPTR, VARSEG, INSTR) is compared with a bound first."
     " (R7, extended) the range test of a narrowing conversion is followed into the helper of the same file that performs the conversion."
-    " (R14) a float that enters the VM from text (str::parse), from bytes or from digit-by-digit accumulation is tested with is_finite in the function that obtains it.")
+    " (R14) a float that enters the VM from text (str::parse), from bytes or from digit-by-digit accumulation is tested with is_finite in the function that obtains it."
+    " (R15) the payload of an existing INTEGER / LONG value written through a reference receives the result of a conversion function or a copy, never an operation computed on the spot.")
 NOT_DECIDED = [
     "rounding direction and the exact boundary constants of each conversion (value-level)",
     "C06.R3 covers payloads computed by integer arithmetic inside the constructing function; values "
@@ -976,6 +977,54 @@ def r14_floats_from_outside_are_finite(ctx, rule="C06.R14", crate="rusty_basic",
     ctx.require(rule, floor)
 
 
+def r15_payload_written_in_place(ctx, rule="C06.R15"):
+    """`an INTEGER variable holds a value in -32768..32767`: besides building a new value (R3) the VM can write
+    the payload of an existing VInteger / VLong through a mutable reference (`*i = ..` after `match self {
+    VInteger(i) => ..}`; POKE does).  What is written there is a value that some conversion function returned
+    (whose range is that function's obligation) or a copy - never the result of arithmetic or bit operations
+    computed on the spot, which no range test stands behind (`(*i & !m) | (v << 8)` on the i32 payload gives
+    65535 where the 16-bit pattern means -1)."""
+    prog = ctx.prog
+    n = 0
+    for f in sorted(prog.fns.values(), key=lambda f: f.id):
+        if f.crate not in ("rusty_basic", "rusty_variant") or f.body is None or f.kind == "const":
+            continue
+        body = f.body
+        pv = None
+        for b, blk in enumerate(body.blocks):
+            if blk.get("c"):
+                continue
+            for st in blk["s"]:
+                if st["k"] != "assign" or "*" not in st["p"][1]:
+                    continue
+                base = st["p"][0]
+                if body.locals[base]["ty"] not in ("&mut i32", "&mut i64"):
+                    continue
+                pv = pv or mir.Prov(body)
+                # the reference: `&mut (*self as VInteger).0`, bound by the pattern of a match arm
+                whole = [d for d in body.defs().get(base, []) if d[1] != "T" and not d[2]["p"][1]]
+                is_payload = any(d[2]["r"].get("k") == "ref" and any(isinstance(e, dict) and e.get("d") in ("VInteger", "VLong")
+                                                                     for e in d[2]["r"]["p"][1]) for d in whole)
+                if not is_payload:
+                    continue
+                n += 1
+                r = st["r"]
+                direct = r.get("k") in ("bin", "un")
+                src = pv._of_rvalue(r, 0)
+                computed = direct or mir.strip_all(src)[0] in ("bin", "un")
+                name = f.path.split("::", 1)[1]
+                k = sum(1 for x in ctx.obs if x.key.startswith("%s:%s" % (rule, name)))
+                ctx.decide(not computed, rule, "%s:%s%s" % (rule, name, "#%d" % k if k else ""), "%s:%s" % (f.file, st.get("ln")),
+                           "the payload receives %s" % mir.short_origin(src),
+                           "%s writes the result of an operation computed on the spot (%s) into the payload of an INTEGER / LONG "
+                           "value: nothing tests its range - POKE to the high byte of an INTEGER leaves 32768..65535 in it"
+                           % (name, mir.short_origin(src)))
+    if not n:
+        raise CheckError("%s: no in-place write of an integer payload found (POKE writes one)" % rule)
+    ctx.analysed_units(rule, payload_writes=n)
+    ctx.require(rule, 1)
+
+
 def run(ctx):
     common.install(ctx)
     T = ot.OpTables(ctx.prog)
@@ -995,3 +1044,4 @@ def run(ctx):
     r12_float_results_are_finite(ctx)
     r13_integer_results_of_builtins_fit(ctx)
     r14_floats_from_outside_are_finite(ctx)
+    r15_payload_written_in_place(ctx)
